@@ -147,6 +147,44 @@ Fixpoint ins (multi : bool) (nd : node) (t : tree) : tree :=
       else Node l (set_val n (n_val nd)) h r                       (* position->value = value *)
   end.
 
+(* MultiMap::insert(position, key, value) (MultiMap.hpp:140-167).  When the key fits next to the hint (between the
+   hint Item and its predecessor / successor in iteration order) the new Item is inserted into the LEFT / RIGHT subtree of
+   the hint Item - descending there by key comparisons like the plain insert - and the tree is re-balanced from there
+   to the root; otherwise it is a plain insert from the root.  [i] is the rank of the hint Item. *)
+Fixpoint ins_under (i : nat) (right : bool) (nd : node) (t : tree) : tree :=
+  match t with
+  | Leaf => Leaf
+  | Node l n h r =>
+      let m := size l in
+      if (i <? m)%nat then rebal (mk (ins_under i right nd l) n r)
+      else if (i =? m)%nat then (if right then rebal (mk l n (ins true nd r)) else rebal (mk (ins true nd l) n r))
+      else rebal (mk l n (ins_under (i - m - 1) right nd r))
+  end.
+Definition hint_ins (pos : nat) (nd : node) (t : tree) : tree :=
+  let l := inorder t in
+  let k := n_key nd in
+  match nth_error l pos with
+  | None =>                                                          (* position == end() *)
+      match nth_error l (length l - 1) with
+      | Some prev => if k >? n_key prev then ins_under (length l - 1) true nd t else ins true nd t      (* &prev->right *)
+      | None => ins true nd t                                        (* empty *)
+      end
+  | Some ip =>
+      if k <? n_key ip then
+        match pos with
+        | O => ins_under pos false nd t                              (* no predecessor: &insertPos->left *)
+        | S q => match nth_error l q with
+                 | Some prev => if k >=? n_key prev then ins_under pos false nd t else ins true nd t
+                 | None => ins true nd t
+                 end
+        end
+      else
+        match nth_error l (S pos) with
+        | None => ins_under pos true nd t                            (* next == &endItem: &insertPos->right *)
+        | Some next => if k <=? n_key next then ins_under pos true nd t else ins true nd t
+        end
+  end.
+
 Fixpoint pop_min (l : tree) (n : node) (r : tree) : node * tree :=
   match l with
   | Leaf => (n, r)
@@ -272,6 +310,21 @@ Definition c_insert (k : kind) (pos : nat) (key val : Z) (c : cont) (ser nid : n
       end
   end.
 
+(* insert(position, key, value) of Map / MultiMap.  Map: a new key has exactly one free place between its neighbours and
+   the tree is re-balanced from there to the root with or without a hint; an existing key is assigned: the plain insert.
+   MultiMap: hint_ins (the place inside a run of equal keys depends on the hint). *)
+Definition c_insert_hint (k : kind) (pos : nat) (key val : Z) (c : cont) (ser nid : nat)
+  : cont * nat * nat * list event :=
+  match c_body c with
+  | BTree t =>
+      if is_multi k then
+        let '(s, p', ser', ev) := alloc k (c_pool c) ser in
+        let nd := mkNode nid s key val in
+        (mkCont (BTree (hint_ins pos nd t)) p', ser', S nid, ev ++ [birth k nid s])
+      else c_insert k pos key val c ser nid
+  | _ => c_insert k pos key val c ser nid
+  end.
+
 (* remove(iterator at position pos) *)
 Definition c_remove_at (pos : nat) (c : cont) : cont * list event :=
   match nth_error (elems c) pos with
@@ -316,14 +369,46 @@ Definition c_destroy (k : kind) (cap : nat) (c : cont) : cont * list event :=
    | _ => []
    end ++ destroy_events (elems c) ++ map EFree (p_blocks (c_pool c))).
 
+(* a run of insertions of the elements of a list [src] (the elements of another container).  [off] says where:
+   None = at the end (insert(_end, ..) for every element); Some (p, n0) = List::insert(position, const List&) with the
+   position iterator at index p of a list that had n0 elements: the iterator keeps designating the same item, so the
+   i-th new element goes to index p + i = p + (current length - n0) *)
+Definition ins_pos (off : option (nat * nat)) (c : cont) : nat :=
+  match off with
+  | None => length (elems c)
+  | Some (p, n0) => (p + (length (elems c) - n0))%nat
+  end.
+Definition ins_fold (k : kind) (off : option (nat * nat)) :=
+  fun (acc : cont * nat * nat * list event) (e : node) =>
+    let '(c1, ser1, nid1, ev1) := acc in
+    let '(c2, ser2, nid2, ev2) := c_insert k (ins_pos off c1) (n_key e) (n_val e) c1 ser1 nid1 in
+    (c2, ser2, nid2, ev1 ++ ev2).
+
 (* operator=(other): clear, then append / insert every element of the other container *)
 Definition c_assign (k : kind) (src : list node) (c : cont) (ser nid : nat) : cont * nat * nat * list event :=
   let '(c0, ev0) := c_clear c in
-  fold_left (fun acc e =>
-               let '(c1, ser1, nid1, ev1) := acc in
-               let '(c2, ser2, nid2, ev2) := c_insert k (length (elems c1)) (n_key e) (n_val e) c1 ser1 nid1 in
-               (c2, ser2, nid2, ev1 ++ ev2))
-            src (c0, ser, nid, ev0).
+  fold_left (ins_fold k None) src (c0, ser, nid, ev0).
+
+(* List::append / prepend / insert(position, ..) (const List&), HashSet::append(const HashSet&), Map::insert(const Map&):
+   one insertion per element of the other container, in its iteration order.  (Map::insert(const Map&) passes the
+   iterator of the previous insertion as a hint; a hint does not change where a new key goes nor the path on which the
+   tree is re-balanced, see OHint.)  The argument is never the container itself. *)
+Definition insall_off (k : kind) (pos : option nat) (c : cont) : option (nat * nat) :=
+  match k with KList => option_map (fun p => (p, length (elems c))) pos | _ => None end.      (* only List has a position *)
+Definition c_insert_all (k : kind) (pos : option nat) (src : list node) (c : cont) (ser nid : nat)
+  : cont * nat * nat * list event :=
+  fold_left (ins_fold k (insall_off k pos c)) src (c, ser, nid, []).
+
+(* HashSet::remove(const HashSet&): remove(key) for every key of the other set *)
+Definition rem_fold (k : kind) :=
+  fun (acc : cont * list event) (e : node) =>
+    let '(c1, ev1) := acc in
+    match find_pos k (n_key e) c1 with
+    | Some i => let '(c2, ev2) := c_remove_at i c1 in (c2, ev1 ++ ev2)
+    | None => acc
+    end.
+Definition c_remove_all (k : kind) (src : list node) (c : cont) : cont * list event :=
+  fold_left (rem_fold k) src (c, []).
 
 (* ---- the state machine ------------------------------------------------------------------------- *)
 Record state := mkState { s_a : cont; s_b : cont; s_cur : bool; s_ser : nat; s_nid : nat }.
@@ -354,6 +439,17 @@ Definition step (k : kind) (cap : nat) (st : state) (o : op) : state * list even
         let '(c', ser', nid', ev) := c_assign k (elems (other st)) c (s_ser st) (s_nid st) in (set_sel st c' ser' nid', ev)
       else (st, [])
   | ODestroy => let '(c', ev) := c_destroy k cap c in (set_sel st c' (s_ser st) (s_nid st), ev)
+  | OInsAll pos =>
+      if has_insall k then
+        let '(c', ser', nid', ev) := c_insert_all k pos (elems (other st)) c (s_ser st) (s_nid st) in (set_sel st c' ser' nid', ev)
+      else (st, [])
+  | ORemAll =>
+      if has_remall k then let '(c', ev) := c_remove_all k (elems (other st)) c in (set_sel st c' (s_ser st) (s_nid st), ev)
+      else (st, [])
+  | OHint pos key val =>
+      if has_hint k then
+        let '(c', ser', nid', ev) := c_insert_hint k pos key val c (s_ser st) (s_nid st) in (set_sel st c' ser' nid', ev)
+      else (st, [])
   end.
 
 Fixpoint run (k : kind) (cap : nat) (st : state) (ops : list op) : state :=
